@@ -325,9 +325,12 @@ fn c03_check(case: &C03Case, st: &mut Stats) -> Result<(), String> {
     let writes = writes.min(40);
     st.max("max_durable_write_points", writes);
     // the re-runs of one schedule are independent of each other: four helper threads share them (the shards finish
-    // at very different times, so this keeps the cores busy); the verdict is the failure with the lowest crash point
+    // at very different times, so this keeps the cores busy); the verdict is the failure with the lowest crash point among those found before the helpers stopped
     let points: Vec<(u64, bool)> = (0..writes).flat_map(|call| [(call, false), (call, true)]).collect();
     const HELPERS: usize = 4;
+    // once a crash point has failed the other helpers stop: the case is a violation whichever point is reported
+    let stop = std::sync::atomic::AtomicBool::new(false);
+    let stop = &stop;
     let results: Vec<(Stats, u64, Option<(usize, String)>)> = std::thread::scope(|s| {
         let handles: Vec<_> = (0..HELPERS)
             .map(|h| {
@@ -337,6 +340,9 @@ fn c03_check(case: &C03Case, st: &mut Stats) -> Result<(), String> {
                     let mut nontrivial = 0u64;
                     let mut failure = None;
                     for (k, (call, applied)) in points.iter().copied().enumerate().filter(|(k, _)| k % HELPERS == h) {
+                        if stop.load(std::sync::atomic::Ordering::Relaxed) {
+                            break;
+                        }
                         st.evaluations += 1;
                         let out = common::guard(|| {
                             let (r, _, voted, offered) = run_with_crash(case, Some(crate::engine::CrashPoint { call, applied }));
@@ -352,6 +358,7 @@ fn c03_check(case: &C03Case, st: &mut Stats) -> Result<(), String> {
                             }
                             Err(e) => {
                                 failure = Some((k, e));
+                                stop.store(true, std::sync::atomic::Ordering::Relaxed);
                                 break;
                             }
                         }
